@@ -71,7 +71,7 @@ def main() -> int:
         j["work"] = str(batch)
         info[j["id"]] = (label, {"interplay", label.split(":")[1].rsplit("_", 1)[0], "le" if le else "enum"})
         jobs.append(j)
-    for i in range(16 if quick else 400):
+    for i in range(16 if quick else 1600):
         d, feats = docs.random_doc(("C11", seed(), i))
         le = i % 3 == 2
         j = run.job(d, want=["manifest"], keep=True, cfg={"literal_enums": le}, plan={"fn": "c11", "args": {"seed": seed() * 13 + i}})
